@@ -184,7 +184,8 @@ def finish(mod, tier, seed, specs, results, t0):
     cov["inconclusive_items"] = inconclusive[:10]
     cov["inconclusive_count"] = len(inconclusive)
     cov["functions_encoded"] = getattr(mod, "FUNCS", [])
-    cov["bounds"] = getattr(mod, "BOUNDS", {}).get(tier, getattr(mod, "BOUNDS", {}))
+    _b = getattr(mod, "BOUNDS", "")
+    cov["bounds"] = _b.get(tier, _b) if isinstance(_b, dict) else _b
     cov["outside_bounds"] = getattr(mod, "OUTSIDE", "")
     ev = {
         "property_id": pid,
@@ -199,6 +200,12 @@ def finish(mod, tier, seed, specs, results, t0):
     os.makedirs(os.path.join(VERIF, "evidence"), exist_ok=True)
     with open(os.path.join(VERIF, "evidence", pid + ".json"), "w") as fh:
         json.dump(ev, fh, indent=1, default=str)
+    try:  # build-time debugging aid (git-ignored): per-item timing and status
+        os.makedirs(os.path.join(VERIF, ".last"), exist_ok=True)
+        with open(os.path.join(VERIF, ".last", pid + ".json"), "w") as fh:
+            json.dump([{"spec": sp, "status": r["status"], "wall_s": r.get("wall_s"), "note": r.get("note", "")[:200], "cls": r.get("cls"), "kinds": [f["kind"] for f in r["findings"]]} for sp, r in zip(specs, results)], fh, default=str)
+    except Exception:
+        pass
     for line in out_lines:
         print(line)
     print(
